@@ -55,6 +55,7 @@ const (
 	VerifEvAdmit     = 3 // a=shouldAdmit
 	VerifEvAdapt     = 4 // a=new probationCap
 	VerifEvLFUVictim = 5 // key=victim key
+	VerifEvSample    = 6 // a=read fingerprint replayed into the sketch by drainStripe
 )
 
 const (
@@ -63,6 +64,7 @@ const (
 	verifEvAdmit     = VerifEvAdmit
 	verifEvAdapt     = VerifEvAdapt
 	verifEvLFUVictim = VerifEvLFUVictim
+	verifEvSample    = VerifEvSample
 )
 
 type VerifEvent struct {
@@ -897,4 +899,25 @@ func VerifSchedRelease() {
 			}
 		}(th)
 	}
+}
+
+// VerifSampleRead appends a read fingerprint to shard i's read buffer exactly as a lock-free reader does.
+func (c *Cache[K, V]) VerifSampleRead(i int, h, id uint64) (stripe int, needDrain bool) {
+	return c.shards[i].readBuf.sample(h, id)
+}
+
+// VerifDrainStripe replays one stripe of shard i's read buffer under the drain token (a no-op without a sieve).
+func (c *Cache[K, V]) VerifDrainStripe(i, stripe int) {
+	s := c.shards[i]
+	s.drainMu.Lock()
+	if s.sieve != nil {
+		s.drainStripe(s.sieve, &s.readBuf.stripes[stripe])
+	}
+	s.drainMu.Unlock()
+}
+
+// VerifStripeState exposes a stripe's cursors.
+func (c *Cache[K, V]) VerifStripeState(i, stripe int) (tail, head uint64) {
+	st := &c.shards[i].readBuf.stripes[stripe]
+	return st.tail.Load(), st.head.Load()
 }
